@@ -26,9 +26,9 @@ def wraps_c03(case, ctx):
     return [dict(case, p={"wrap": w})]
 
 
-def doc_prop(pid, quick, thorough, sample_quick, sample_thorough, rule, nontrivial_key, expand=None, small=3):
+def doc_prop(pid, quick, thorough, sample_quick, sample_thorough, rule, nontrivial_key, expand=None, small=3, design=None):
     return dict(
-        stages=[dict(
+        stages=([dict(name="design", gen=dict(runs=design))] if design else []) + [dict(
             name="main",
             gen=dict(runs=dict(quick=quick, thorough=thorough)),
             sample=dict(quick=sample_quick, thorough=sample_thorough),
@@ -52,7 +52,8 @@ PROPS["C02"] = doc_prop(
     sample_quick=20000, sample_thorough=700000,
     rule="cases = abstract documents enumerated by TLC (spec/gen/MC_C02 BFS to the bound, all paragraph child sequences of spec/gen/MC_C03, then -simulate); "
          "non-trivial = the real run retained some source words and dropped others",
-    nontrivial_key="kept_and_dropped")
+    nontrivial_key="kept_and_dropped",
+    design=dict(quick=[bfs("MC_Convert", "Convert_q")], thorough=[bfs("MC_Convert", "Convert_t", timeout=3000)]))
 
 PROPS["C03"] = doc_prop(
     "C03",
@@ -61,7 +62,9 @@ PROPS["C03"] = doc_prop(
     sample_quick=16000, sample_thorough=400000,
     rule="cases = every child sequence of a paragraph up to the bound over {text, ws, br, inline, link, js link, font} "
          "x placement; non-trivial = the page had a simple paragraph with >= 2 word-bearing text nodes",
-    nontrivial_key="para_multi", expand=wraps_c03, small=4)
+    nontrivial_key="para_multi", expand=wraps_c03, small=4,
+    design=dict(quick=[bfs("MC_Convert", "ConvertPara_q"), bfs("MC_Convert", "ConvertPara_defect", expect_violation=True)],
+                thorough=[bfs("MC_Convert", "ConvertPara_t", timeout=3000), bfs("MC_Convert", "ConvertPara_defect", expect_violation=True)]))
 
 PROPS["C04"] = doc_prop(
     "C04",
@@ -70,7 +73,8 @@ PROPS["C04"] = doc_prop(
     sample_quick=16000, sample_thorough=400000,
     rule="cases = documents placing hidden / script-like / form-like content at every position; "
          "non-trivial = the source had never-shown or skip-class words AND the run produced output",
-    nontrivial_key="hidden_and_output")
+    nontrivial_key="hidden_and_output",
+    design=dict(quick=[bfs("MC_Convert", "Convert_q")], thorough=[bfs("MC_Convert", "Convert_t", timeout=3000)]))
 
 PROPS["C05"] = doc_prop(
     "C05",
@@ -88,7 +92,9 @@ PROPS["C07"] = doc_prop(
     sample_quick=16000, sample_thorough=400000,
     rule="cases = all nestings of ul/ol/li/blockquote/pre up to the bound with kept/dropped leaves; "
          "non-trivial = a retained word has a non-empty nest chain",
-    nontrivial_key="chain_kept", small=4)
+    nontrivial_key="chain_kept", small=4,
+    design=dict(quick=[bfs("MC_DocFilters", "DocFilters_q"), bfs("MC_Convert", "Convert_q")],
+                thorough=[bfs("MC_DocFilters", "DocFilters_t", timeout=3000), bfs("MC_Convert", "Convert_t", timeout=3000)]))
 
 PROPS["C08"] = doc_prop(
     "C08",
@@ -97,7 +103,8 @@ PROPS["C08"] = doc_prop(
     sample_quick=16000, sample_thorough=400000,
     rule="cases = all interleavings of kept/dropped text with media up to the bound; "
          "non-trivial = the page had media and both retained and dropped text",
-    nontrivial_key="media_mixed", small=4)
+    nontrivial_key="media_mixed", small=4,
+    design=dict(quick=[bfs("MC_DocFilters", "DocFilters_q")], thorough=[bfs("MC_DocFilters", "DocFilters_t", timeout=3000)]))
 
 PROPS["C09"] = doc_prop(
     "C09",
